@@ -66,7 +66,8 @@ def showNOut (n : String) (o : NOut) : List (String × String) :=
    ("gl:" ++ n, csv (o.getList.map Transfer.pascalS)), ("sl:" ++ n, csv (o.setList.map (fun x => "Set" ++ Transfer.pascalS x))),
    ("json:" ++ n, toString o.json),
    ("jget:" ++ n, csv (o.jget.map Transfer.pascalS)), ("jset:" ++ n, csv (o.jset.map (fun x => "Set" ++ Transfer.pascalS x))),
-   ("jexp:" ++ n, csv o.jexp)]
+   ("jexp:" ++ n, csv o.jexp),
+   ("tags:" ++ n, csv (o.tags.map (fun p => p.1 ++ "=" ++ p.2))), ("opts:" ++ n, csv o.opts), ("defs:" ++ n, csv o.defaults)]
 
 def showOptList : Option (List String) → String
   | none => "none"
@@ -86,6 +87,15 @@ def linesOf {τ ω : Type} (nameOf : τ → String) (showO : String → ω → L
   (comb.flatMap (fun p => showO (nameOf p.1) p.2)
       ++ names.map (fun n => ("same:" ++ n, toString (decide (find comb n = find base n)))),
    sep.flatMap (fun p => showO (nameOf p.1) p.2) ++ names.map (fun n => ("same:" ++ n, "true")))
+
+/-- `(flags getset json opt short (tagcase pascal))` -/
+def parseNFlags (p : Sexp) : NFlags :=
+  let f := p.field? "flags"
+  { getset := f.any (·.hasFlag "getset"), json := f.any (·.hasFlag "json"), opt := f.any (·.hasFlag "opt"),
+    short := f.any (·.hasFlag "short"),
+    tagcase := match f.bind (·.field? "tagcase") with
+      | some (.list [_, .atom c]) => c
+      | _ => "camel" }
 
 /-- `(repair none|full)`: default = the code at HEAD (`codeRepair`) -/
 def repairOf (p : Sexp) : Repair := match p.field? "repair" with
@@ -136,7 +146,7 @@ def genstateCase (id : String) (payload : List Sexp) : List String :=
   -- `(orig n1 n2 …)`: this is a permuted `-type` list; the property compares with the run over the original order
   let orig := (p.field? "orig").map (fun o => o.args.filterMap Sexp.asAtom?)
   if cmd == "new" then
-    let fl : NFlags := { getset := (p.field? "flags").any (·.hasFlag "getset"), json := (p.field? "flags").any (·.hasFlag "json") }
+    let fl := parseNFlags p
     match tys.mapM parseNType with
     | none => err id "bad-new-types"
     | some ts =>
